@@ -11,6 +11,7 @@ import (
 	"net"
 	"runtime"
 	"strconv"
+	"strings"
 	"sync"
 	"time"
 )
@@ -235,17 +236,20 @@ func settle() bool {
 			if i := bytes.IndexByte([]byte(st), ','); i >= 0 {
 				st = st[:i]
 			}
-			switch st {
-			case "running", "runnable", "syscall":
+			// a goroutine that is running, runnable, in a syscall, or suspended by the runtime
+			// (preempted, stack copy, "(scan)" variants during GC) is not at rest
+			switch {
+			case strings.HasPrefix(st, "running"), strings.HasPrefix(st, "runnable"), strings.HasPrefix(st, "syscall"),
+				strings.HasPrefix(st, "preempted"), strings.HasPrefix(st, "copystack"), strings.Contains(st, "(scan)"):
 				busy = true
-			case "sync.Mutex.Lock", "sync.RWMutex.Lock", "sync.RWMutex.RLock", "semacquire":
+			case st == "sync.Mutex.Lock" || st == "sync.RWMutex.Lock" || st == "sync.RWMutex.RLock" || st == "semacquire":
 				mblocked++
 			}
 		}
 		if !busy {
 			quiet++
 			lastMutexBlocked = mblocked
-			if quiet >= 2 {
+			if quiet >= 3 {
 				return true
 			}
 		} else {
